@@ -14,6 +14,7 @@ index computed from the specification as the property states it.
 """
 from __future__ import annotations
 
+import hashlib
 import json
 import math
 from fractions import Fraction
@@ -23,6 +24,7 @@ import numpy as np
 from harness import core
 from harness.core import bool_, lst, rat, rats
 from harness.props import _c05_lib as L
+from harness.props import _c05_translate as TR
 
 PROP = "C05"
 REQUIRED_THEOREMS = [
@@ -34,8 +36,15 @@ REQUIRED_THEOREMS = [
     "indep_matrix_is_convolution", "calculateMatrix_is_convolution_per_index", "calculateMatrix_is_convolution_indep",
     "irfCalculate_spec", "calculateDispersion_entry", "kernelEntry_off", "gaussPdf_integral_one",
     "kernelEntry_with_backsweep",
+    # the functions regenerated from the Python source (Generated/C05Fns.lean) are the model's functions
+    "generated_no_irf_eq_model", "generated_kernel_eq_model_on_index", "generated_kernel_eq_model_all_indices",
+    "generated_glue_indep_eq_model", "generated_glue_dep_eq_model",
+    "is_index_dependent_generated_eq_model", "dispersion_dist_generated_eq_model", "parameter_generated_eq_model",
 ]
 TRUSTED = [
+    "translator harness/props/_c05_translate.py (Python ast -> Lean functions of Generated/C05Fns.lean, regenerated on every run) "
+    "and its fixed vocabulary lean/GlotaranModel/C05Rt.lean (forRange, matUpd, slabUpd, forRangeM, bindE, enumFold); the "
+    "generated functions are proved equal to the model functions (generated_*_eq_model*, parameter_generated_eq_model)",
     "hand-written model lean/GlotaranModel/C05.lean of irf.py (parameter of the four Gaussian IRF items, "
     "is_index_dependent, calculate, calculate_dispersion), decay_matrix_gaussian_irf.py (both kernels) and "
     "util.py (index_dependent, decay_matrix_implementation_index_dependent / _independent, "
@@ -53,6 +62,9 @@ ASSUMPTIONS = [
     "normalize, an empty global axis and 1e3/0 on the axis are outside the model (driver answers unmodelled)",
     "back-sweep is modelled as coded and compared, but the property statement (and the convolution theorems) "
     "are for back-sweep off",
+    "the generated-equals-model theorems are statements over the reals for arrays of any length run on np.zeros; the kernels' "
+    "`<` / abs on doubles are read as the real order / absolute value (no NaN), numba's unchecked indexing as 'one width and one "
+    "scale per centre' (hypothesis of generated_kernel_eq_model_on_index, discharged by parameter_lengths_agree in the glue theorems)",
     "the exact branch decision (d < -sqrt 2 on rationals) may differ from the double comparison within rounding of "
     "the switch-over point; thresh_decision_sound + branches_agree make the choice irrelevant for the value",
 ]
@@ -72,6 +84,26 @@ RULE = (
 )
 
 SQRT2 = math.sqrt(2.0)
+
+GEN_FILE = core.LEAN / "GlotaranModel" / "Generated" / "C05Fns.lean"
+
+
+def generate(ck):
+    """regenerate lean/GlotaranModel/Generated/C05Fns.lean (function-level translation of the kernels, their glue and
+    the IRF parameter functions) from the source text of VERIF_REPO; written only when its content changes"""
+    text, table = TR.render(core.REPO)
+    GEN_FILE.parent.mkdir(parents=True, exist_ok=True)
+    if not GEN_FILE.exists() or GEN_FILE.read_text() != text:
+        GEN_FILE.write_text(text)
+    for row in table:
+        ck.count("generated:" + ("translated" if row["status"] == "translated" else "untranslatable"))
+    return [{
+        "table": "functions of lean/GlotaranModel/Generated/C05Fns.lean (ast -> Lean, harness/props/_c05_translate.py)",
+        "source": [TR.KERNEL_FILE, TR.UTIL_FILE, TR.IRF_FILE],
+        "source_sha1": TR.source_sha1(core.REPO),
+        "sha1": hashlib.sha1(text.encode()).hexdigest(),
+        "functions": table,
+    }]
 
 
 # ------------------------------------------------------------------------------------------
@@ -875,7 +907,7 @@ def fixed_cases():
     out.append((g(center=[0.0], width=[1e-3]), {"kind": "sequential", "rates": [1000.0, 1e-4]}, [1.0],
                 [-0.1, -0.001, 0.0, 0.001, 1.0]))
     # no IRF
-    out.append((None, {"kind": "general", "rates": [2.0, 0.5]}, [1.0, 2.0], [0.0, 0.5, 1.0, 4.0]))
+    out.append((None, {"kind": "general", "rates": [2.0, 0.5]}, [1.0, 2.0], [-1.5, 0.0, 0.5, 1.0, 4.0]))
     return out
 
 
@@ -904,6 +936,9 @@ def run(ck):
         ck.count("matrix:switch-over-times", sw)
         cases.append((irf, mc, axis, times))
     cases.append((None, gen_mc(rng), [1.0], [0.0, 1.0, 2.5]))
+    for _ in range(3):       # no IRF: times on both sides of zero (the no-IRF kernel is exp(-k t) for every t, as coded)
+        mc0 = gen_mc(rng)
+        cases.append((None, mc0, [1.0, 2.0], sorted(rng.uniform(-2.0, 5.0) / max(mc0["rates"]) for _ in range(5))))
     run_matrix_cases(ck, cases, oracle_budget=ck.n(24, 60))
     # 4. the kernel itself (back-sweep, negative widths, both sides of the back-sweep validity threshold)
     run_kernel_cases(ck, [gen_kernel_case(rng) for _ in range(ck.n(120, 1500))])
